@@ -253,3 +253,64 @@ def get_face(ctx):
         idx.append(m[0] if m else None)
     ctx.prove("corners-of-the-named-side", None not in idx and hexa.is_quad_cycle(idx, side), idx=idx)
     ctx.prove("independent-copy", all(p is not q for p in face.points for q in op.points))
+
+
+# ------------------------------------------------------------------------------ "exactly": no sharing through the caller's objects
+PAIRS2 = [((0, 1), (2, 3)), ((4, 5), (1, 2)), ((0, 4), (6, 7)), ((3, 7), (5, 6)), ((1, 5), (0, 3))]
+
+
+@proof("C10", "Operation.project_edge/shared-label-list", cases=PAIRS2, functions=[OP + "project_edge", "classy_blocks.construct.edges:Project.convert_label",
+                                                                                  "classy_blocks.construct.edges:Project.add_label"],
+       note="one list object given as the label of two edges, then a further surface added to the first edge only")
+def project_edge_shared_list(ctx):
+    (a, b), (c, d) = ctx.case
+    op = mk_op(ctx)
+    before = beams(op)
+    label = ["terrain"]
+    op.project_edge(a, b, label)
+    op.project_edge(c, d, label)
+    op.project_edge(a, b, "walls")
+    after = beams(op)
+    first, second = frozenset((a, b)), frozenset((c, d))
+    ctx.prove("first-edge-has-both-surfaces", isinstance(after[first], E.Project) and sorted(after[first].label) == ["terrain", "walls"])
+    ctx.prove("second-edge-keeps-its-own-label", isinstance(after[second], E.Project) and list(after[second].label) == ["terrain"], label=list(after[second].label))
+    ctx.prove("callers-list-untouched", label == ["terrain"], label=label)
+    ctx.prove("no-other-edge-changed", all(after[e] is before[e] for e in hexa.EDGE_SETS if e not in (first, second)))
+    # an unsorted list given by the caller stays as the caller wrote it
+    mine = ["zeta", "alpha"]
+    op2 = mk_op(ctx)
+    op2.project_edge(a, b, mine)
+    ctx.prove("callers-list-not-reordered", mine == ["zeta", "alpha"], label=mine)
+
+
+@proof("C10", "Operation.project_corner/shared-label-list", cases=[(0, 6), (5, 2), (7, 3), (1, 4)], functions=[OP + "project_corner", "classy_blocks.construct.point:Point.project"],
+       note="one list object given as the label of two corners, then a further surface added to the second corner only")
+def project_corner_shared_list(ctx):
+    c1, c2 = ctx.case
+    op = mk_op(ctx)
+    label = ["terrain", "walls"]
+    op.project_corner(c1, label)
+    op.project_corner(c2, label)
+    op.project_corner(c2, "sky")
+    ctx.prove("second-corner-has-all-three", sorted(op.points[c2].projected_to) == ["sky", "terrain", "walls"])
+    ctx.prove("first-corner-keeps-its-own-label", sorted(op.points[c1].projected_to) == ["terrain", "walls"], label=list(op.points[c1].projected_to))
+    ctx.prove("callers-list-untouched", label == ["terrain", "walls"], label=label)
+    ctx.prove("no-other-corner-projected", all(op.points[c].projected_to == [] for c in range(8) if c not in (c1, c2)))
+
+
+@proof("C10", "Operation.edges/one-edge-datum-on-several-edges", cases=[((0, 1), (2, 3), (4, 5)), ((0, 1), (1, 2)), ((4, 5), (6, 7), (7, 4), (3, 0))],
+       functions=[FACE + "add_edge", OP + "edges", "classy_blocks.util.frame:Frame.get_all_beams", "classy_blocks.util.frame:Frame.add_beam"],
+       note="the same edge-data object attached to several face edges: every one of those block edges carries it")
+def shared_edge_datum(ctx):
+    op = Operation(mk_face(ctx, "b", tokens=False), mk_face(ctx, "t", tokens=False))
+    shared = E.Project("terrain")
+    for a, b in ctx.case:
+        (op.bottom_face if a < 4 else op.top_face).add_edge(a % 4, shared)
+    got = beams(op)
+    want = {frozenset(p) for p in ctx.case}
+    ctx.prove("every-addressed-edge-carries-the-datum", all(got.get(e) is shared for e in want), have=[sorted(e) for e in got if got[e] is shared])
+    ctx.prove("and-no-other-edge", all(got.get(e) is not shared for e in hexa.EDGE_SETS if e not in want))
+    listed = op.edges.get_all_beams()   # what the mesh is assembled from
+    with_datum = [(c1, c2) for c1, c2, d in listed if d is shared]
+    ctx.prove("listed-once-for-every-addressed-edge", sorted(sorted(p) for p in with_datum) == sorted(sorted(p) for p in ctx.case), listed=with_datum)
+    ctx.prove("every-block-edge-listed-once", sorted(sorted((c1, c2)) for c1, c2, _ in listed) == sorted(sorted(e) for e in hexa.EDGE_SETS))
